@@ -176,7 +176,7 @@ def main():
             subprocess.run(["git", "-C", "/repo", "worktree", "remove", "--force", wt], capture_output=True)
             subprocess.run(["rm", "-rf", wt])
             for d_, pat in ((os.path.join(VERIF, "harness"), "alt_tmp_mutant"), (os.path.join(VERIF, "harness", "bin"), "_tmp_mutant")):
-                for x in os.listdir(d_):
+                for x in (os.listdir(d_) if os.path.isdir(d_) else []):
                     if pat in x:
                         try:
                             os.remove(os.path.join(d_, x))
